@@ -17,7 +17,8 @@ RULE = ('span pairs: old span = every prefix (quick: length 0..3, thorough 0..5)
         'a bool and a <U2 series (models: status <U1 and iterations too, after solving a prefix of the periods); fill_value and per-variable '
         'fills rotate through a palette (None, bools, ints, halves, nan, inf, strings that fit / are truncated / do not parse), unknown fill '
         'names x strict argument None/True/False x object strict flag; histories (an earlier reindex call with other fill arguments on the same '
-        'object or on a sibling instance of the same class); old spans with duplicates; the new span being the original span '
+        'object or on a sibling instance of the same class, incl. equal-but-different fill values 1 / 1.0 / True and 0 / 0.0 / False per dtype; reindex '
+        'chains: the object observed is the result of reindexing through same-length shifted windows); old spans with duplicates; the new span being the original span '
         'object; the pandas mixin with default and explicit arguments and fill methods; a tracer-extended model; stacked mixins (aliases, aliases + '
         'tracer, pandas + tracer: same class, aliases resolve on the result); BaseLinker.reindex (NotImplementedError, linker unchanged). Non-trivial = at least one '
         'overlapping and one new period, or an exception path; distinct by hash of the whole case.')
@@ -262,7 +263,13 @@ def impl(case):
     import pandas as pd
     _fresh_fsic()
     old = lc.build_span(case['old'])
-    c = _build(case, old)
+    if case.get('chain'):
+        # history: the object observed is itself the RESULT of earlier reindex calls (a chain of windows ending at `old`)
+        c = _build(case, lc.build_span(case['chain'][0]))
+        for sp in case['chain'][1:] + [case['old']]:
+            c = c.reindex(lc.build_span(sp))
+    else:
+        c = _build(case, old)
     new = c.span if case.get('same_span_object') else lc.build_span(case['new'])
     new_spec = case['old'] if case.get('same_span_object') else case['new']
     # history: earlier reindex calls (on this object or on a sibling instance of the same class) must not influence the call observed
@@ -556,6 +563,8 @@ def _expected_fill(dt, pv, given):
         return ['b', pv[1]] if k == 'b' else 'skip'
     if dt.startswith('<U'):
         return ['s', pv[1]] if k == 's' and len(pv[1]) <= int(dt[2:]) else 'skip'
+    if dt == 'object':
+        return [k, pv[1]] if k in ('b', 'i', 's') else 'skip'          # stored as it is (True stays True, 1 stays 1)
     return 'skip'
 
 
@@ -702,6 +711,10 @@ def shrink_candidates(case):
     if case.get('prior'):
         c = copy.deepcopy(case)
         del c['prior']
+        yield c
+    if case.get('chain'):
+        c = copy.deepcopy(case)
+        del c['chain']
         yield c
     if case.get('fills'):
         for i in range(len(case['fills'])):
@@ -896,6 +909,36 @@ def gen(rng, tier):
                         if hk % 4 == 0:
                             c['fills'] = [['F', ['f', -0.5]]]
                         cases.append(c)
+    # reindex chains: the object observed is the result of reindexing through same-length shifted windows (and other windows)
+    ck = 0
+    for fname, uni, mk, _ in fams[:2] + fams[3:4] + fams[5:7] + fams[8:9]:
+        def win(a, n):
+            return {'type': {'range': 'list', 'list-str': 'list', 'nparr-int': 'nparr', 'pdindex-int': 'pdindex', 'period-Y': 'pdindex', 'datetime-D': 'list'}[fname], 'labels': uni[a:a + n]}
+        for chain, oldw, neww in (([mk(3)], win(1, 3), win(2, 3)), ([mk(3)], win(1, 3), win(0, 3)), ([mk(3), win(1, 3)], win(2, 3), win(1, 3)),
+                                  ([mk(4)], win(2, 3), win(0, 4)), ([mk(2)], win(1, 2), win(0, 3)), ([mk(3)], win(1, 3), mk(3))):
+            for cls in ('VC', 'BM', 'BMP'):
+                ck += 1
+                c = {'cls': cls, 'chain': chain, 'old': oldw, 'new': neww, 'vars': STD_VARS, 'solved': ck % 3, 'fill_value': None, 'fills': [], 'strict': None, 'obj_strict': False}
+                if cls == 'BMP':
+                    c['pandas'] = {}
+                elif ck % 2:
+                    c['fills'] = [['F', ['f', -0.5]]]
+                cases.append(c)
+    # equal-but-different fill values in ONE process (1 == 1.0 == True, 0 == False == 0.0): an earlier call with one of them, then the call
+    # observed with another; per dtype incl. object (stored as given), str and status (converted by str())
+    eq_classes = [[['b', True], ['i', 1], ['f', 1.0]], [['i', 0], ['b', False], ['f', 0.0]]]
+    for ecls in eq_classes:
+        for first, second in itertools.permutations(ecls, 2):
+            for vname, cls in (('O', 'VC'), ('S', 'VC'), ('I', 'VC'), ('F', 'VC'), ('B', 'VC'), ('status', 'BM'), ('iterations', 'BM'), ('S', 'BM')):
+                for same in (False, True):
+                    vars_ = [{'name': 'O', 'dtype': 'obj', 'data': []}] + STD_VARS[:1] if vname == 'O' else STD_VARS
+                    pr = {'new': fams[0][2](3), 'fills': [[vname, first]], 'fill_value': None, 'same_object': same}
+                    cases.append({'cls': cls, 'old': fams[0][2](2), 'new': fams[0][2](3), 'vars': vars_, 'solved': 0, 'fill_value': None, 'fills': [[vname, second]],
+                                  'strict': None, 'obj_strict': False, 'prior': [pr]})
+            for same in (False, True):
+                pr = {'new': fams[0][2](3), 'fills': [], 'fill_value': first, 'same_object': same}
+                cases.append({'cls': 'VC', 'old': fams[0][2](2), 'new': fams[0][2](3), 'vars': [{'name': 'O', 'dtype': 'obj', 'data': []}] + STD_VARS, 'solved': 0,
+                              'fill_value': second, 'fills': [], 'strict': None, 'obj_strict': False, 'prior': [pr]})
     # falsy fill values (0, 0.0, False, '') are values, not "nothing given": as per-variable keyword over a truthy fill_value, and as fill_value
     falsy = [('F', ['f', 0.0], ['f', 2.5]), ('I', ['i', 0], ['i', 7]), ('B', ['b', False], ['b', True]), ('S', ['s', ''], ['s', 'ab'])]
     for vi, (vname, fz, truthy) in enumerate(falsy):
